@@ -8,7 +8,9 @@ Case (items separated by ` ; `):
   `inv NDP OUTCOME LATMS PRE POST NB NA LATE`   one invocation: NDP datapoints acknowledged before the runtimeDone
         record; upstream OUTCOME ok|slow|fail1|fail with LATMS per attempt; the runtimeDone record sits in a batch
         after PRE and before POST other records; NB / NA batches without runtimeDone before the datapoints / after
-        the runtimeDone batch; LATE datapoints sent after the following `/next` arrived and before it is answered.
+        the runtimeDone batch; LATE datapoints sent after the following `/next` arrived and before it is answered;
+        an optional tenth number MID: datapoints sent while this invocation's flush is being delivered upstream (no
+        predicted log for such a case, see `early`).
   `early K`                                     (optional, after `cfg ok`) K datapoints are sent as soon as the extension has
         subscribed to telemetry, i.e. inside the start-up window; one that is acknowledged provably before the window
         can have ended is logged `E<id>`, a later one `A<id>`.  Which it is depends on timing, so the model makes no
@@ -38,6 +40,7 @@ structure InvCase where
   nb : Nat
   na : Nat
   late : Nat
+  mid : Nat := 0
 
 structure Case where
   initOk : Bool
@@ -53,6 +56,9 @@ def parseCase (line : String) : Option Case := do
       | ["inv", ndp, outcome, lat, pre, post, nb, na, late] => do
         pure { ndp := ← ndp.toNat?, outcome := outcome, lat := ← lat.toNat?, pre := ← pre.toNat?, post := ← post.toNat?,
                nb := ← nb.toNat?, na := ← na.toNat?, late := ← late.toNat? : InvCase }
+      | ["inv", ndp, outcome, lat, pre, post, nb, na, late, mid] => do
+        pure { ndp := ← ndp.toNat?, outcome := outcome, lat := ← lat.toNat?, pre := ← pre.toNat?, post := ← post.toNat?,
+               nb := ← nb.toNat?, na := ← na.toNat?, late := ← late.toNat?, mid := ← mid.toNat? : InvCase }
       | _ => none)
     pure { initOk := i == "ok", early := early, invs := invs }
   | _ => none
@@ -117,6 +123,7 @@ def runModel (line : String) : String :=
   | some c =>
     let m := simulate c
     if c.early > 0 then "* the order of the start-up datapoints and the initial flush is left to timing" else
+    if c.invs.any (fun iv => iv.mid > 0) then "* datapoints sent while a flush is being delivered: their order relative to the end of the delivery is left to timing" else
     match m.stuck with
     | some e => "MODEL_STUCK " ++ e
     | none => unwords m.out
